@@ -33,6 +33,8 @@ fn gen_system(r: &mut Rng) -> System {
         coef[i][i] = 4 + r.below(3) as i32;
         let extra = r.below(3.min(n));
         for _ in 0..extra { let j = r.below(n); if j != i { coef[i][j] = r.below(3) as i32 - 1; } }
+        // now and then an equation over MANY unknowns (16 and more inputs in one tape), still diagonally dominant
+        if n >= 16 && r.chance(0.08) { coef[i][i] = 2 * n as i32; for j in 0..n { if j != i && r.chance(0.8) { coef[i][j] = r.below(3) as i32 - 1; } } }
     }
     let rhs: Vec<f32> = (0..n).map(|i| (0..n).map(|j| coef[i][j] as f32 * scale * truth[j]).sum()).collect();
     let start: Vec<f32> = (0..n).map(|j| if fixed[j] { truth[j] } else if r.chance(0.15) { truth[j] } else { truth[j] + (r.range(0, 8) as f32 - 4.0) * 0.25 / scale }).collect();
